@@ -311,3 +311,59 @@ Proof.
   destruct K as (_ & B & C & D & E). cbn. refine (conj _ (conj B (conj C D))).
   rewrite Forall_map. exact E.
 Qed.
+
+(* ---------- the same on the lists the JSON writer prints ---------- *)
+From Coq Require Import Permutation.
+From SV Require Import Model.Json.
+
+Lemma keyed_keys_are_ids {V} (id : V -> str) (d : list (str * V)) k :
+  keyed id d -> In k (map fst d) -> In k (map id (sorted_values id d)).
+Proof.
+  intros [KF _] H. unfold sorted_values, sort_by_key.
+  assert (P : Permutation (map id (isort (fun a b => str_leb (id a) (id b)) (map snd d))) (map id (map snd d)))
+    by (apply Permutation_map, isort_perm).
+  eapply Permutation_in; [apply Permutation_sym; exact P|].
+  clear P. induction d as [|[k' v] r IH]; cbn in *; [exact H|]. inversion KF; subst. cbn in *. destruct H as [E|H]; [left; congruence|right; auto].
+Qed.
+
+(* every id string that the JSON value lists inside a module, class, function or enum entry is the "id" of an entry of the
+   top-level list of its kind (the lists are those of Model/Json.v: api_json) *)
+Theorem json_ids_resolve v o : front v = Ok o ->
+  let a := o_api o in let f := o_flatd o in
+  let CI := map c_id (sorted_values c_id (api_classes a)) in
+  let FI := map f_id (sorted_values f_id (fl_functions f)) in
+  let RI := map r_id (sorted_values r_id (fl_results f)) in
+  let PI := map p_id (sorted_values p_id (fl_params f)) in
+  let AI := map a_id (sorted_values a_id (fl_attrs f)) in
+  let EI := map e_id (sorted_values e_id (fl_enums f)) in
+  let II := map fst (sort_by_key fst (fl_enum_insts f)) in
+  (forall m, In m (sort_by_key m_id (api_modules a)) ->
+     incl (map c_id (m_classes m)) CI /\ incl (map f_id (m_functions m)) FI /\ incl (map e_id (m_enums m)) EI) /\
+  (forall c, In c (sorted_values c_id (api_classes a)) ->
+     incl (map f_id (c_methods c)) FI /\ (match c_ctor c with Some k => In (f_id k) FI | None => True end) /\
+     incl (map a_id (c_attrs c)) AI /\ incl (map c_id (c_classes c)) CI) /\
+  (forall fn, In fn (sorted_values f_id (fl_functions f)) ->
+     incl (map r_id (f_results fn)) RI /\ incl (map p_id (f_params fn)) PI) /\
+  (forall e, In e (sorted_values e_id (fl_enums f)) -> incl (map fst (e_instances e)) II).
+Proof.
+  intro H. pose proof (front_ids_resolve _ _ H) as (RM & RC & RF & RE). pose proof (front_keyed _ _ H) as (KC & KF & KR & KP & KA & KE & KI & _).
+  cbn zeta in *.
+  assert (INS : forall k, In k (map fst (fl_enum_insts (o_flatd o))) -> In k (map fst (sort_by_key fst (fl_enum_insts (o_flatd o))))).
+  { intros k Hk. unfold sort_by_key. eapply Permutation_in; [apply Permutation_sym, Permutation_map, isort_perm|exact Hk]. }
+  assert (LIFT : forall {X} (g : X -> str) (l : list X) (K K' : list str), (forall k, In k K -> In k K') -> Forall (fun x => In (g x) K) l -> incl (map g l) K').
+  { intros X g l K K' HK HF k Hk. apply in_map_iff in Hk. destruct Hk as (x & <- & Hx). apply HK. rewrite Forall_forall in HF. exact (HF x Hx). }
+  refine (conj _ (conj _ (conj _ _))).
+  - intros m Hm. assert (Hm' : In m (api_modules (o_api o))) by (eapply Permutation_in; [apply isort_perm|exact Hm]).
+    rewrite Forall_forall in RM. destruct (RM m Hm') as (A & B & C).
+    refine (conj _ (conj _ _)); (eapply LIFT; [|eassumption]); intros k Hk; apply keyed_keys_are_ids; assumption.
+  - intros c Hc. assert (Hc' : In c (map snd (api_classes (o_api o)))) by (eapply Permutation_in; [apply isort_perm|exact Hc]).
+    apply in_map_iff in Hc'. destruct Hc' as (kv & <- & Hkv). rewrite Forall_forall in RC. destruct (RC kv Hkv) as (A & B & C & D).
+    refine (conj _ (conj _ (conj _ _))); try ((eapply LIFT; [|eassumption]); intros k Hk; apply keyed_keys_are_ids; assumption).
+    destruct (c_ctor (snd kv)); [apply keyed_keys_are_ids; assumption|exact I].
+  - intros fn Hf. assert (Hf' : In fn (map snd (fl_functions (o_flatd o)))) by (eapply Permutation_in; [apply isort_perm|exact Hf]).
+    apply in_map_iff in Hf'. destruct Hf' as (kv & <- & Hkv). rewrite Forall_forall in RF. destruct (RF kv Hkv) as (A & B).
+    split; (eapply LIFT; [|eassumption]); intros k Hk; apply keyed_keys_are_ids; assumption.
+  - intros e He. assert (He' : In e (map snd (fl_enums (o_flatd o)))) by (eapply Permutation_in; [apply isort_perm|exact He]).
+    apply in_map_iff in He'. destruct He' as (kv & <- & Hkv). rewrite Forall_forall in RE. specialize (RE kv Hkv).
+    unfold enum_res in RE. eapply LIFT; [|exact RE]. exact INS.
+Qed.
